@@ -145,7 +145,10 @@ pub fn c08(s: &mut Sess, rng: &mut Rng, n: u64) {
     use std::collections::BTreeSet;
     for _ in 0..n {
         let verify = rng.chance(1, 2);
-        s.begin_case(&format!("cfg kind=bytes n={} sync=1 pre=0 verify={} fail=0", *rng.pick(&[2u64, 10_000]), verify as u8));
+        // a quarter of the cases run with fail_on_integrity_errors and reopen through `Cas::open`:
+        // its gate must reject exactly the stores with a missing or corrupted referenced blob
+        let gate_case = rng.chance(1, 4);
+        s.begin_case(&format!("cfg kind=bytes n={} sync=1 pre=0 verify={} fail={}", *rng.pick(&[2u64, 10_000]), verify as u8, gate_case as u8));
         if !s.op("open").starts_with("ok") { continue; }
         // a few keys over few contents
         let contents: [&[u8]; 4] = [b"X", b"", b"ZZZ", b"hello"];
@@ -232,6 +235,15 @@ pub fn c08(s: &mut Sess, rng: &mut Rng, n: u64) {
                 }
                 _ => {}
             }
+        }
+        if gate_case {
+            let r = s.op("openplain");
+            let want = if exp_missing.is_empty() && exp_corrupt.is_empty() { "ok plain".to_string() } else { format!("err integrity {} {}", exp_missing.len(), exp_corrupt.len()) };
+            if r != want { s.out.oracle_fail(format!("C08: Cas::open with fail_on_integrity_errors returned `{r}`, the planted damage demands `{want}`")); }
+            s.out.count(if want.starts_with("ok") { "c08.gate-passes" } else { "c08.gate-rejects" });
+            if r.starts_with("ok") { s.op("close"); }
+            s.op("tracedrop");
+            continue;
         }
         let r = s.op("open");
         if !r.starts_with("ok") { s.out.oracle_fail(format!("C08: open (fail_on_integrity_errors=false) returned {r}")); continue; }
